@@ -409,12 +409,13 @@ async fn run_history(w: &mut World, tr: &mut Tracer, hno: u64, src: &str, cfg: &
                 let st = w.st(user, sess, Some(parent_id)).await;
                 tr.emit(&json!({"a":"revoke","t":w.now,"g":g,"kind":kind,"act":act,"res":res,"st":st}));
             }
-            "expire" | "restore" | "logout" => {
+            "expire" | "restore" | "logout" | "notyet" => {
                 let ct = w.ct();
                 let mut pw = w.s.idms.proxy_write(ct).await.expect("w");
                 let ml = match a {
                     "expire" => ModifyList::new_purge_and_set(Attribute::AccountExpire, Value::new_datetime_epoch(t(w.now - 1))),
-                    "restore" => ModifyList::new_list(vec![Modify::Purged(Attribute::AccountExpire)]),
+                    "restore" => ModifyList::new_list(vec![Modify::Purged(Attribute::AccountExpire), Modify::Purged(Attribute::AccountValidFrom)]),
+                    "notyet" => ModifyList::new_purge_and_set(Attribute::AccountValidFrom, Value::new_datetime_epoch(t(w.now + 1000))),
                     _ => ModifyList::new_list(vec![Modify::Removed(Attribute::UserAuthTokenSession, PartialValue::Refer(parent_id))]),
                 };
                 pw.qs_write.internal_modify_uuid(user_uuid(user), &ml).expect("admin change");
@@ -475,7 +476,8 @@ fn random_history(rng: &mut Rng, len: u64) -> (J, Vec<J>) {
             38..=52 => h.push(json!({"a":"introspect","g": rng.range(1, gen),"client":"k1"})),
             53..=64 => h.push(json!({"a":"userinfo","g": rng.range(1, gen),"client": rng.pick(&["k1","k1","k1","k2"])})),
             65..=69 => h.push(json!({"a":"revoke","g": rng.range(1, gen),"kind": rng.pick(&["at","rt"])})),
-            70..=74 => h.push(json!({"a":"expire"})),
+            70..=72 => h.push(json!({"a":"expire"})),
+            73..=74 => h.push(json!({"a":"notyet"})),
             75..=79 => h.push(json!({"a":"restore"})),
             80..=81 => h.push(json!({"a":"logout"})),
             _ => {
